@@ -283,12 +283,24 @@ inductive GKernel
   | other
   deriving Repr, Inhabited
 
+/-- The body of the region: the first op of every `dart.generic` in it, in order (qmac, qmac→rescale,
+qmac→add→rescale, mac→add, rescale only, …); a bias-add generic is `.other`. -/
 structure GemmxOp where
   s : StreamOp
-  kernel : GKernel
+  generics : List GKernel
   i8out : Bool                  -- the region yields a `!dart.stream<i8>`
-  post : Option Rescale         -- `yield.prev_op` is a generic whose first op is a rescale
   deriving Repr, Inhabited
+
+/-- `generic_op = op.body.block.first_op`; its first op selects the branch. (The Python asserts that the first op
+is a `dart.generic`; regions without one are outside the model and behave like an unsupported kernel.) -/
+def GemmxOp.kernel (op : GemmxOp) : GKernel := op.generics.headD .other
+
+/-- `region_yield.prev_op` is the LAST generic of the region (for a single generic: the matmul itself); the
+rescale parameters are taken from it iff its first op is a `kernel.rescale`. -/
+def GemmxOp.post (op : GemmxOp) : Option Rescale :=
+  match op.generics.getLast? with
+  | some (.rescale r) => some r
+  | _ => none
 
 def ceil4 (n : Nat) : Nat := (n + 3) / 4
 
@@ -339,6 +351,13 @@ def defaultRescale (n : Nat) : Rescale :=
   { inZp := 0, outZp := 0, maxI := 127, minI := -128, dr := 0,
     shifts := List.replicate n 9, mults := List.replicate n 1 }
 
+/-- the rescale parameters the i8 branch programs: those of the trailing rescale generic (single values broadcast
+to `n` channels), else the "no rescale" defaults -/
+def effRescale (n : Nat) (op : GemmxOp) : Rescale :=
+  match op.post with
+  | some r => { r with shifts := bcastN n r.shifts, mults := bcastN n r.mults }
+  | none => defaultRescale n
+
 def gemmxParams (v : Variant) (n : Nat) (op : GemmxOp) : Except Err GParams :=
   match op.kernel with
   | .mac zp =>
@@ -355,9 +374,7 @@ def gemmxParams (v : Variant) (n : Nat) (op : GemmxOp) : Except Err GParams :=
         let zpb : Val := match zp with | some (_, b) => .leaf (.inp b) | none => .c 0
         let sub := pack2 (.andi zpa c255) (.andi zpb c255) 0 8
         if op.i8out then
-          let r := match op.post with
-            | some r => { r with shifts := bcastN n r.shifts, mults := bcastN n r.mults }
-            | none => defaultRescale n
+          let r := effRescale n op
           match (chunks4 r.shifts).mapM packShiftChunk with
           | .error e => .error e
           | .ok sh =>
